@@ -59,8 +59,11 @@ def borrow(here_file, lender, names, prefix=None, slow=(), max_quick=None, max_t
                         x["tier"] = "thorough"
                     qc = keep
                 if max_thorough is not None and len(tc) > max_thorough:
-                    step = len(tc) / float(max_thorough) if max_thorough else 0
-                    tc = [tc[int(i * step)] for i in range(max_thorough)]
+                    if max_thorough == 0:
+                        tc = []
+                    else:
+                        step = len(tc) / float(max_thorough)
+                        tc = [tc[int(i * step)] for i in range(max_thorough)]
                 c["cases"] = qc + tc
             if h["name"] in slow:      # too slow for the borrower's quick tier
                 if c.get("cases"):
